@@ -2,7 +2,7 @@
 # usage: tools/seedtest.sh <PID> [other PIDs to also run]   -- confirm a sub-agent's seeded change and run our checks against it
 # 1. in the agent's worktree: suite passes with the change (demo excluded), demo fails with it, demo passes without it
 # 2. apply patch.diff to a scratch export of /repo HEAD and run ./check <PID...> with VERIF_REPO
-P=$1; shift; W=/tmp/seed/$P; O=$W/_seed_out
+P=$1; shift; W=${SEEDROOT:-/tmp/seed}/$P; O=$W/_seed_out
 [ -f $O/patch.diff ] || { echo "no patch for $P"; exit 2; }
 export CARGO_TARGET_DIR=$W/target
 DEMO=$(python3 -c "import json;print(json.load(open('$O/meta.json')).get('demo_command',''))")
